@@ -26,6 +26,9 @@ class Heap:
         P.ghost["heap"] = self
         self.final_memo = {}
         P.attr_hooks[("Alias", "final_target")] = self._final_target_hook
+        # constructing the alias exceptions is taken by contract (message formatting only; see trusted base)
+        P.opaque_hooks["new:AliasResolutionError"] = lambda P_, a, k: SObj("AliasResolutionError", {"args": tuple(a), "alias": a[0] if a else k.get("alias")})
+        P.opaque_hooks["new:CyclicAliasError"] = lambda P_, a, k: SObj("CyclicAliasError", {"args": tuple(a), "chain": a[0] if a else k.get("chain")})
         if hook_path:
             for c in ("Object", "Alias"):
                 P.attr_hooks[(c, "path")] = self._path_hook
@@ -122,7 +125,7 @@ class Heap:
 
         @lazy("members")
         def _members():
-            m, has = heap.smap(tag + "_members", lambda k: heap.obj(f"{tag}.m[{zstr(k).sexpr()[:24]}]"))
+            m, has = heap.smap(tag + "_members", lambda k: heap.obj(f"{tag}.m[{zstr(k).sexpr()[:24]}]"), iterable=True)
             o.members_has = has
             return m
 
